@@ -13,6 +13,7 @@
 #include <pthread.h>
 #include <semaphore.h>
 #include <time.h>
+#include <sched.h>
 #include "uv.h"
 
 static int recording;
@@ -20,9 +21,12 @@ static const void *exp_a, *exp_b;      /* objects the uv wrapper was given */
 static unsigned long exp_val;          /* for by-value arguments (key, thread id) */
 static char out[1024];
 
+static int rec_lock;
 static void rec(const char* name, int same) {
   if (!recording) return;
+  while (__atomic_exchange_n(&rec_lock, 1, __ATOMIC_ACQUIRE)) ;     /* two threads record in the racing case */
   snprintf(out + strlen(out), sizeof out - strlen(out), "%s%s:%d", out[0] ? " " : "", name, same);
+  __atomic_store_n(&rec_lock, 0, __ATOMIC_RELEASE);
 }
 /* what an init call asks for: the observable settings of the attribute object (NULL = an
  * object with the default settings) or the by-value arguments */
@@ -100,9 +104,26 @@ int __wrap_pthread_cond_timedwait(pthread_cond_t* c, pthread_mutex_t* m, const s
 }
 int __real_pthread_once(pthread_once_t*, void (*)(void));
 static void once_fn(void) {}
-int __wrap_pthread_once(pthread_once_t* g, void (*f)(void)) {
-  rec("pthread_once", (const void*) g == exp_a && f == once_fn); return __real_pthread_once(g, f);
+/* racing case: a second uv_once arrives while the init function of the first is running */
+static volatile int slow_in_init, slow_second_called, slow_second_returned;
+static pthread_once_t slow_guard = PTHREAD_ONCE_INIT;
+static void slow_init(void) {
+  struct timespec t0, t;
+  slow_in_init = 1;
+  clock_gettime(CLOCK_MONOTONIC, &t0);
+  for (;;) {          /* until the second call reached pthread_once (or returned without it); 3 s at most */
+    if (slow_second_called || slow_second_returned) break;
+    clock_gettime(CLOCK_MONOTONIC, &t);
+    if (t.tv_sec - t0.tv_sec >= 3) break;
+    sched_yield();
+  }
 }
+int __wrap_pthread_once(pthread_once_t* g, void (*f)(void)) {
+  rec("pthread_once", (const void*) g == exp_a && (f == once_fn || f == slow_init));
+  if (g == &slow_guard && slow_in_init) slow_second_called = 1;
+  return __real_pthread_once(g, f);
+}
+static void slow_first(void* a) { (void) a; uv_once(&slow_guard, slow_init); }
 int __real_pthread_key_create(pthread_key_t*, void (*)(void*));
 int __wrap_pthread_key_create(pthread_key_t* k, void (*d)(void*)) {
   rec("pthread_key_create", (const void*) k == exp_a); return __real_pthread_key_create(k, d);
@@ -166,7 +187,20 @@ static void run_case(const char* f, long arg) {
   else if (!strcmp(f, "uv_cond_broadcast")) { uv_cond_init(&c); exp_a = &c; OBS(uv_cond_broadcast(&c)); }
   else if (!strcmp(f, "uv_cond_wait")) { uv_cond_init(&c); uv_mutex_init(&m); uv_mutex_lock(&m); exp_a = &c; exp_b = &m; OBS(uv_cond_wait(&c, &m)); }
   else if (!strcmp(f, "uv_cond_timedwait")) { uv_cond_init(&c); uv_mutex_init(&m); uv_mutex_lock(&m); exp_a = &c; exp_b = &m; OBS(uv_cond_timedwait(&c, &m, 1000)); }
-  else if (!strcmp(f, "uv_once")) { exp_a = &g; OBS(uv_once(&g, once_fn)); }
+  else if (!strcmp(f, "uv_once")) {          /* arg = which call on this guard is observed (1 = on a fresh guard) */
+    long i; exp_a = &g;
+    for (i = 1; i < arg; i++) uv_once(&g, once_fn);
+    OBS(uv_once(&g, once_fn));
+  }
+  else if (!strcmp(f, "uv_once_racing")) {   /* both calls are observed: the one running the init and the one racing with it */
+    exp_a = &slow_guard; out[0] = 0; recording = 1;
+    if (uv_thread_create(&t, slow_first, NULL)) { recording = 0; printf("nothread\n"); return; }
+    while (!slow_in_init) sched_yield();
+    uv_once(&slow_guard, slow_init);
+    slow_second_returned = 1;
+    recording = 0;                           /* both pthread_once calls were recorded on entry */
+    uv_thread_join(&t);
+  }
   else if (!strcmp(f, "uv_key_create")) { exp_a = &k; OBS(uv_key_create(&k)); }
   else if (!strcmp(f, "uv_key_delete")) { uv_key_create(&k); exp_val = (unsigned long) k; OBS(uv_key_delete(&k)); }
   else if (!strcmp(f, "uv_key_get")) { uv_key_create(&k); exp_val = (unsigned long) k; OBS(uv_key_get(&k)); }
